@@ -391,6 +391,16 @@ func IPv6FindUpperProtocol(packet []byte) (nextHeader uint8, offset int, isFragm
 			return nextHeader, offset, isFragment, anyFragment, nil
 		}
 	}
+
+	// The walk limit was reached. Only a terminal protocol whose header starts inside the packet is acceptable
+	// here, a chain we could not resolve must fail closed rather than be classified as an extension header.
+	switch nextHeader {
+	case 0, 43, 44, 51, 60:
+		return nextHeader, offset, isFragment, anyFragment, ErrIPv6CouldNotFindPayload
+	}
+	if offset > len(packet) {
+		return nextHeader, offset, isFragment, anyFragment, ErrIPv6CouldNotFindPayload
+	}
 	return nextHeader, offset, isFragment, anyFragment, nil
 }
 
